@@ -26,7 +26,8 @@ RULE = ("one case = a history of up to 80 operations over 1-3 MersenneTwister "
         "and was followed by further draws; distinct = digest of the history")
 COMPONENTS = {"real": ["pydsol.core.streams.MersenneTwister"],
               "stub": ["random.Random inside the stream (only in the extreme-uniform sub-check)"]}
-ASSUMPTIONS = ["integer ranges wider than the largest float are not generated (int->float conversion raises OverflowError, which is not an out-of-range draw)",
+ASSUMPTIONS = ["sizes are swarm-varied: about 1 % of the histories have 700 or 2500 operations (beyond one 624-word block of the generator)",
+               "integer ranges wider than the largest float are not generated (int->float conversion raises OverflowError, which is not an out-of-range draw)",
                "weak fit: no scheduler/clock; history + metamorphic relations"]
 
 SEEDS = [0, 1, 2, 10, 101, -1, -7, 2 ** 31, 2 ** 32 + 5, 2 ** 63, 2 ** 200, 12345678901234567890]
@@ -48,6 +49,8 @@ def generate(seed, tier, idx=0):
         seeds[1] = seeds[0]         # equal seeds on purpose
     ops = []
     n = rng.choice([3, 5, 8, 12, 20, 30, 50, 80])
+    if rng.random() < 0.01:
+        n = rng.choice([700, 2500])        # beyond one 624-word block of the generator
     for _ in range(n):
         s = rng.randrange(k)
         r = rng.random()
